@@ -98,7 +98,12 @@ func runC32(c *core.Ctx) {
 	// C32.d
 	if fn := c.Fn("C32.d", "store", "RecoverNode"); fn != nil {
 		checks := an.CallsTo(fn, false, "store.checkRaftConfiguration")
-		ok := len(checks) == 1 && isParamN(fn, 7)(checks[0].Common().Args[0])
+		ok := len(checks) == 1
+		if ok {
+			// the configuration checked is RecoverNode's raft.Configuration parameter (wherever it sits in the list)
+			p, isP := an.Unwrap(checks[0].Common().Args[0]).(*ssa.Parameter)
+			ok = isP && p.Parent() == fn && strings.HasSuffix(p.Type().String(), "raft.Configuration")
+		}
 		if ok {
 			gate := an.SenseEdges(fn, an.ErrResult(checks[0]), an.IsNil)
 			h := an.Ungated(an.CutSpec{Fn: fn, GateEdge: gate, Sink: func(in ssa.Instruction) bool {
